@@ -201,7 +201,7 @@ class Ctx:
         self.harness_errors.append({"where": msg, "case": dict(self.cur or {}), "tb": tb})
 
     def _write_replay(self, v):
-        d = os.path.join(OUT, "replay")
+        d = os.path.join(OUT, "replay" if os.path.abspath(self.repo) == "/repo" else "replay_scratch")
         os.makedirs(d, exist_ok=True)
         idx = (v["case"] or {}).get("index", "x")
         p = os.path.join(d, "%s_%s_s%d_c%s_%s.json" % (self.prop, self.tier, self.seed, idx,
